@@ -10,7 +10,7 @@ import (
 
 func init() {
 	Register(&Prop{
-		ID: "C08", Bubble: false, Run: runC08, QuickRuns: 2000,
+		ID: "C08", Bubble: false, ArmLockProbes: true, Run: runC08, QuickRuns: 2000,
 		ExpectedProbes: []string{"pair_checked", "skipped_probe", "skipped_baseline_changed"},
 		Rule: "one run = twin instances of Vegas / Gradient / Gradient2 built with the same configuration and the same math/rand seed, fed the same seeded prefix history (asserted: equal estimate and baseline), then one final sample differing only in rtt (baseline <= rtt_low < rtt_high); oracle: estimate(high) <= estimate(low); pairs where the final sample was a probe or lowered the baseline are skipped and counted; " +
 			"non-trivial = the pair was not skipped and at least one twin changed its estimate on the final sample; distinct = distinct choice tapes",
@@ -20,7 +20,7 @@ func init() {
 		Assumptions: []string{"hidden jitter draws are made identical by rand.Seed (GODEBUG randseednop=0)"},
 	})
 	Register(&Prop{
-		ID: "C15", Bubble: false, Run: runC15, QuickRuns: 1200,
+		ID: "C15", Bubble: false, ArmLockProbes: true, Run: runC15, QuickRuns: 1200,
 		ExpectedProbes: []string{"rtt_stepped_up"},
 		Rule: "one run = Vegas (probe multiplier 1..60) or Gradient (probe interval 1..2000 or disabled) fed 200..1700 samples with rtt in [1, 2^53): backend model with step changes up and down, spikes and plateaus; an observer that needs no private state keeps the set of reset positions consistent with every RTTNoLoad() seen so far; " +
 			"oracle: baseline unset or <= current rtt; the feasible set never empties (baseline is the minimum of the samples since some reset); the most recent feasible reset is younger than multiplier x (largest estimate+1) + 1 (Vegas) / 2 x interval (Gradient); " +
@@ -31,7 +31,7 @@ func init() {
 		Assumptions: []string{"rtt < 2^53 so RTTNoLoad round-trips exactly through float64"},
 	})
 	Register(&Prop{
-		ID: "C16", Bubble: true, Run: runC16, QuickRuns: 2500,
+		ID: "C16", Bubble: true, ArmLockProbes: true, Run: runC16, QuickRuns: 2500,
 		ExpectedProbes: []string{"estimate_changed_with_listeners", "concurrent_notifications_checked"},
 		Rule: "one run = one limit implementation (AIMD, Vegas, Gradient, Gradient2, Settable, Fixed) bare or under windowed / traced / both wrappers, 0..4 listeners registered through the outermost wrapper at seeded points of a 20..200 operation history (samples incl. faults, SetLimit for the settable limit); " +
 			"oracle after every operation: if EstimatedLimit() changed, every listener registered before the operation was called during it; every listener called has last delivered value == EstimatedLimit(); wrapper estimate == delegate estimate; the traced wrapper forwards sample arguments unchanged to a recording delegate; " +
@@ -222,6 +222,7 @@ func runC15(r *Run) {
 	segLeft := 0
 	var segKind int
 	zeros := t.Chance(40, "allow-zero-rtt")
+	startTimes := t.Chance(40, "report-start-times")
 	for i := 0; i < n; i++ {
 		if segLeft == 0 {
 			segKind = t.Pick([]int{6, 2, 2, 1, 1}, "rtt-seg")
@@ -262,6 +263,10 @@ func runC15(r *Run) {
 			inflight = est / 4
 		}
 		s := Sample{RTT: rtt, InFlight: inflight, Drop: t.Chance(3, "drop")}
+		if startTimes {
+			// start times as a caller may report them: not monotone (requests finish out of order, clocks step back)
+			s.Start = int64(t.Intn(1<<30, "start-time"))
+		}
 		if p := safeSample(a.Lim, s); p != nil {
 			r.Fail("panic", algoKey(a, "OnSample"), "OnSample panicked on %v: %v", s, p)
 			return
@@ -404,7 +409,11 @@ func runC16(r *Run) {
 	var ls []*noteListener
 	// traced forwarding sub-check
 	rec := &recLimit{est: 7}
-	tr := limit.NewTracedLimit(rec, nopLogger{})
+	var trLog limit.Logger = nopLogger{}
+	if t.Chance(50, "traced-debug-logger") {
+		trLog = &debugLogger{} // the debug path of the wrapper formats what it forwards: it must still forward it unchanged
+	}
+	tr := limit.NewTracedLimit(rec, trLog)
 	changes, firstChange, lateReg := 0, -1, false
 	for i := 0; i < n; i++ {
 		for _, at := range regAt {
@@ -438,9 +447,20 @@ func runC16(r *Run) {
 				r.Probe("skipped_panic")
 				return
 			}
-			tr.OnSample(s.Start, s.RTT, s.InFlight, s.Drop)
-			if got := rec.got[len(rec.got)-1]; got != s {
-				r.Fail("traced-altered-sample", "traced", "TracedLimit forwarded %v for sample %v", got, s)
+			// the forwarding sub-check also sees what the algorithms above are spared: zero RTTs, with and without a drop
+			ts := s
+			if t.Chance(12, "traced-zero-rtt") {
+				ts.RTT = 0
+				ts.Drop = t.Chance(50, "traced-zero-rtt-drop")
+			}
+			nBefore := len(rec.got)
+			tr.OnSample(ts.Start, ts.RTT, ts.InFlight, ts.Drop)
+			if len(rec.got) != nBefore+1 {
+				r.Fail("traced-altered-sample", "traced/count", "TracedLimit forwarded %d samples to its delegate for one sample %v", len(rec.got)-nBefore, ts)
+				return
+			}
+			if got := rec.got[len(rec.got)-1]; got != ts {
+				r.Fail("traced-altered-sample", "traced", "TracedLimit forwarded %v for sample %v", got, ts)
 				return
 			}
 			desc = s.String()
